@@ -1165,21 +1165,22 @@ class _BudgetExceeded(Exception):
 
 
 def _with_budget(prog, fn, seconds=None):
-    """Run fn() under a wall-clock budget (a comparison whose normal forms explode is not decided, instead of blocking the
-    check).  Uses SIGALRM, so it only arms in the main thread; half-finished cache entries are dropped afterwards."""
+    """Run fn() under a CPU-time budget (a comparison whose normal forms explode is not decided, instead of blocking the
+    check).  Uses SIGVTALRM, so it only arms in the main thread; half-finished cache entries are dropped afterwards."""
     import os
     import signal
     import threading
 
-    seconds = float(os.environ.get("LCMSA_KER_BUDGET", "90")) if seconds is None else seconds
+    seconds = float(os.environ.get("LCMSA_KER_BUDGET", "600")) if seconds is None else seconds
     if threading.current_thread() is not threading.main_thread() or not hasattr(signal, "setitimer"):
         return fn()
 
     def on_alarm(_sig, _frm):
         raise _BudgetExceeded
 
-    old = signal.signal(signal.SIGALRM, on_alarm)
-    signal.setitimer(signal.ITIMER_REAL, seconds)
+    # CPU time of this process, not wall-clock time: the verdict must not depend on how busy the machine is
+    old = signal.signal(signal.SIGVTALRM, on_alarm)
+    signal.setitimer(signal.ITIMER_VIRTUAL, seconds)
     try:
         return fn()
     except _BudgetExceeded:
@@ -1189,8 +1190,8 @@ def _with_budget(prog, fn, seconds=None):
                 cache.pop(k, None)
         raise
     finally:
-        signal.setitimer(signal.ITIMER_REAL, 0)
-        signal.signal(signal.SIGALRM, old)
+        signal.setitimer(signal.ITIMER_VIRTUAL, 0)
+        signal.signal(signal.SIGVTALRM, old)
 
 
 def _judge(ctx, key, where, what, level, vocab, loops_restructured, lhs, rhs):
